@@ -1357,7 +1357,12 @@ def _switch_normal_form(block: tuple) -> tuple:
 
 
 def _plain_path(x) -> bool:
-    return isinstance(x, tuple) and (x[:1] in (("v",), ("p",)) or (x[:1] == ("a",) and len(x) == 3 and (x[1] == ("self",) or _plain_path(x[1]))))
+    if not isinstance(x, tuple):
+        return False
+    if x[:1] in (("v",), ("p",)) or (x[:1] == ("a",) and len(x) == 3 and (x[1] == ("self",) or _plain_path(x[1]))):
+        return True
+    # an item of a plain sequence at a constant / variable position
+    return x[:1] == ("s",) and len(x) == 3 and _plain_path(x[1]) and isinstance(x[2], tuple) and x[2][:1] in (("k",), ("v",), ("p",))
 
 
 def _unroll_asserts(block: tuple) -> tuple:
@@ -1500,6 +1505,8 @@ def _renorm_local(x: S) -> S:
                     insts.append(e_ if c_ == K_TRUE else mk_and([c_, e_]))
             if not any(_free_bound(i_) for i_ in insts):
                 return mk_and(insts) if x[1][1] == "all" else mk_or(insts)
+    if t == "concat" and len(x) == 3 and is_str(x[1]) and is_str(x[2]):
+        return k_str(x[1][2] + x[2][2])        # 'east' + '_border0' is the name 'east_border0'
     if t == "cmp" and len(x) == 4 and x[1] in ("is", "isnot") and K_NONE in (x[2], x[3]):
         from .peval import fold as _fold           # (T if c else None) is None  ==  not c
         return _fold(x)
